@@ -470,6 +470,19 @@ def handle (line : String) : String :=
             | .ok (v, st') => go k st'.next (acc ++ " | ok " ++ valToStr v)
         go count (IOReaderSt.new stream fa scratch) "rio"
       | _, _, _, _ => "bad-op"
+    | "deseq", (.atom "slice" :: .atom _fault :: .atom _scratch :: .atom _sched :: .atom h :: tys) =>
+      -- ONE Deserializer::from_bytes(input) decodes several values in a row, then finalize() = the remainder
+      match tys.mapM tyOfSexp, bytesOfHex h with
+      | some tys, some bs =>
+        let rec goSl (ts : List Ty) (rest : List Byte) (acc : String) : String :=
+          match ts with
+          | [] => acc ++ " | fin rest=" ++ hexOfBytes rest
+          | t :: ts =>
+            match dec t rest with
+            | .error e => acc ++ " | err " ++ e.name ++ " | posterr"
+            | .ok (v, r) => goSl ts r (acc ++ " | ok " ++ valToStr v)
+        goSl tys bs "deseq"
+      | _, _ => "bad-op"
     | "deseq", (.atom _adapter :: .atom fault :: .atom scratch :: .atom _sched :: .atom h :: tys) =>
       -- ONE Deserializer::from_flavor(IOReader) used for several values in a row; compared up to the first
       -- error (afterwards only safety is observed by the harness)
